@@ -11,8 +11,8 @@ use neurons::tensor::Tensor;
 pub fn meta(ctx: &Ctx) -> Meta {
     let t = ctx.tier.thorough();
     Meta {
-        rule: format!("every layer sequence of <= {} tokens (one configuration deviation) over 5 input shapes that ends in a dense layer x EVERY subset of droppable layers (dense, convolution, deconvolution, layers inside feedback blocks) of size 1..{} carrying dropout 0.5 x epochs {{1,2,3}} x with/without validation data. Differential oracles, bit-exact: (i) the last validation pair returned by learn() equals validate() called right afterwards, and the e-th pair of a 3-epoch run equals the last pair of the e-epoch run; (ii) after learn(), predict equals predict of a twin network built WITHOUT dropout holding the same weights; (iii) validate()/predict() of a never-trained network equal the twin's; (iv) every training flag is off after learn() and after validate(); (v) the same after a run that left learn() through its early-stopping exit (tolerance 1); (vi) the same along the call sequence validate, learn (with validation), learn (without), learn (with validation), validate. Non-trivial = a case in which the training-mode forward pass differs from the evaluation-mode one (the mask zeroed a non-zero element)", if t { 4 } else { 3 }, if t { "all" } else { "2" }),
-        bound: format!("depth <= {}, dropout rate 0.5 (fixed-seed mask), 3 samples, batch 2", if t { 4 } else { 3 }),
+        rule: format!("every layer sequence of <= {} tokens (one configuration deviation) over 5 input shapes that ends in a dense layer x EVERY subset of droppable layers (dense, convolution, deconvolution, layers inside feedback blocks) of size 1..{} carrying dropout (rates 0.5, 0.1, 0.9 depending on the subset) x epochs {{1,2,3}} x with/without validation data. Differential oracles, bit-exact: (i) the last validation pair returned by learn() equals validate() called right afterwards, and the e-th pair of a 3-epoch run equals the last pair of the e-epoch run; (ii) after learn(), predict equals predict of a twin network built WITHOUT dropout holding the same weights; (iii) validate()/predict() of a never-trained network equal the twin's; (iv) every training flag is off after learn() and after validate(); (v) the same after a run that left learn() through its early-stopping exit (tolerance 1); (vi) the same along the call sequence validate, learn (with validation), learn (without), learn (with validation), validate. Non-trivial = a case in which the training-mode forward pass differs from the evaluation-mode one (the mask zeroed a non-zero element)", if t { 4 } else { 3 }, if t { "all" } else { "2" }),
+        bound: format!("depth <= {}, dropout rates 0.1/0.5/0.9 (fixed-seed mask), 3 samples, batch 2", if t { 4 } else { 3 }),
         exhaustive: true,
         assumptions: vec!["Tensor::dropout uses a fixed seed, so training runs are deterministic and differential comparisons are bit-exact".into()],
     }
@@ -34,7 +34,8 @@ fn with_dropout(net: &Net, mask: u32) -> Net {
         match l {
             L::Dense { drop, .. } | L::Conv { drop, .. } | L::Deconv { drop, .. } => {
                 if mask & (1 << *idx) != 0 {
-                    *drop = Some(0.5);
+                    // rate varies with the subset: 0.5, 0.1, 0.9 (spec strings carry two decimals)
+                    *drop = Some([0.5, 0.1, 0.9][(mask as usize + *idx) % 3]);
                 }
                 *idx += 1;
             }
